@@ -152,6 +152,11 @@ inline bool Futex::Awaitable::await_suspend(
   if (success && _on_suspend) {
     _on_suspend({id});
   }
+  if (!success) {
+    // Not suspended, nobody else knows this id. Give the slot back.
+    box.take_released(id);
+    box.finish_released(id);
+  }
   return success;
 }
 
